@@ -38,7 +38,8 @@ RULE = ("(1) random valid explicit map requests: DAGs of 1..4 structural functio
         "in all streams about a third of the functions return PAIRS as element values (tuple / list / 1-d ndarray; "
         "consumers log whether they were handed one pair or a k-d object array of pairs); "
         "(3) input variants: missing / surplus input, input for a bound parameter, 2-d input as nested lists "
-        "(ValueError before anything runs), input supplied for a defaulted parameter (the input wins); "
+        "(ValueError before anything runs), input supplied for a defaulted parameter (the input wins), a MAPPED root "
+        "argument with a list default of another length that is overridden by the input (shapes and values from the input); "
         "non-trivial = some function with >=2 output axes or a ':' axis or an internal axis; distinct by "
         "(kind, specs, order, shapes, storage)")
 ASSUMPTIONS = ["sequential semantics (parallel=False); executors/schedules are C03",
@@ -147,8 +148,11 @@ def _inputs_variant(c, rng):
     arrays2 = [kv for kv in c["inputs"] if isinstance(kv[1], dict) and len(kv[1]["sh"]) >= 2]
     bound = [b[0] for f in c["funcs"] for b in f.get("bound") or []]
     dflt = [d[0] for f in c["funcs"] for d in f.get("defaults") or []]
+    # rank-1 root arrays that some MapSpec indexes (mapped root arguments)
+    mapped = {n for f in c["funcs"] if f.get("spec") for n, ax in f["spec"]["i"] if any(a is not None for a in ax)}
+    arrays1 = [kv for kv in c["inputs"] if isinstance(kv[1], dict) and len(kv[1]["sh"]) == 1 and kv[0] in mapped]
     kinds = ["missing", "extra"] + (["list2d"] * 2 if arrays2 else []) + (["bound_supplied"] * 2 if bound else []) \
-        + (["default_supplied"] * 3 if dflt else [])
+        + (["default_supplied"] * 3 if dflt else []) + (["mapped_default"] * 5 if arrays1 else [])
     k = rng.choice(kinds)
     if k == "missing" and c["inputs"]:
         c["inputs"].pop(rng.randrange(len(c["inputs"])))
@@ -162,6 +166,17 @@ def _inputs_variant(c, rng):
     elif k == "default_supplied":
         p = rng.choice(dflt)
         c["inputs"].append([p, p.upper() + "inp"])
+    elif k == "mapped_default":
+        # a MAPPED root argument that has an (array-valued, list) default AND is supplied: the input wins, for the
+        # values and for the shapes alike - whatever the length of the default (shorter / longer / equal)
+        name, v = rng.choice(arrays1)
+        n = v["sh"][0]
+        m = rng.choice(([n - 1] if n > 1 else []) + [n + 1, n + 2, n])
+        d = {"sh": [m], "d": [f"{name}d_{t}" for t in range(m)], "as": "list"}
+        for f in c["funcs"]:
+            if name in f["params"] and name not in [b[0] for b in f.get("bound") or []]:
+                f.setdefault("defaults", []).append([name, d])
+        k = "mapped_default_" + ("shorter" if m < n else "longer" if m > n else "equal")
     c["variant"] = k
     return c
 
